@@ -445,6 +445,8 @@ def enum_module(tier_, seed_):
     mod.add(bridgegen.OpaqueDef("Eo"))
     for ed in list(mod.enums.values()):
         mod.method("Eo", "rt_%s" % ed.name.lower(), None, [("e", bridgegen.EnumT(ed.name))], bridgegen.EnumT(ed.name))
+        # a method whose receiver is the enum itself: back ends convert `self` at a different site than parameters
+        mod.method(ed.name, "me", "val", [], bridgegen.Prim("i32"))
     return mod
 
 
